@@ -985,6 +985,7 @@ fn tok_case(run: &mut Run, idx: usize, w: &W11, slot: usize) {
         _ => world_text(&mut rng, w, 12),
     };
     let (mode0, ops, requested) = gen_ops(&mut rng, slot);
+    if idx % 3 == 0 && !text.is_empty() { let mut r2 = Rng::for_case(run.opts.seed ^ 0x5E05E, idx); reuse_split_case(run, idx, w, &text, &mut r2); }
     let (fmode, fsub) = tok_state(&w.dic, mode0, &ops);
     let ctx = format!("mode0={} ops={} -> mode {} subset {:#b}", mode_ch(mode0), show_ops(&ops), mode_ch(fmode), fsub);
     // the mode-C best path of a full-field analysis: what the model starts from
@@ -1109,6 +1110,108 @@ fn tok_case(run: &mut Run, idx: usize, w: &W11, slot: usize) {
             }
         }
     }
+}
+
+/// ORACLE ONLY: C11 on morpheme lists that are REUSED as the `out` list of `split_into` / `copy_slice`.  The morphemes a list
+/// receives were analysed with the subset of the SOURCE list, so splitting them again has to read the units with THAT
+/// subset, whatever the receiving list held before (an analysis with fewer fields, a look-up, nothing).  Two-level split
+/// C -> B -> A of every morpheme of a mode-C analysis with the requested subset `req`, once through NEW lists and once through
+/// lists that held an analysis with a SMALLER subset before; every requested field of every unit and every unit range must
+/// be the same in both runs and the same as in a full-field run (the property: a requested field has the value it has when
+/// all fields are loaded; boundaries are those of a full-field analysis).
+fn reuse_split_case(run: &mut Run, idx: usize, w: &W11, text: &str, rng: &mut Rng) {
+    let dic = &w.dic;
+    // requested fields: always the split lists (the walk needs them); otherwise random
+    let req: u32 = (rng.below(1024) as u32) | 64 | 128;
+    let small: u32 = match rng.below(4) { 0 => 0, 1 => SURFACE, 2 => SURFACE | POS_ID, _ => (rng.below(1024) as u32) & !(64 | 128 | 256) };
+    let via_copy = rng.chance(1, 2);
+    let observe = |sub: u32, pre: Option<u32>| -> Result<Result<Vec<(usize, usize, Vec<String>)>, String>, String> {
+        catch(|| {
+            let mut out = MorphemeList::empty(dic);
+            let mut out2 = MorphemeList::empty(dic);
+            if let Some(ps) = pre {
+                let mut t0 = StatefulTokenizer::new(dic, Mode::C);
+                t0.set_subset(InfoSubset::from_bits_retain(ps));
+                for l in [&mut out, &mut out2] {
+                    t0.reset().push_str(text);
+                    t0.do_tokenize().map_err(|e| err_class(&e))?;
+                    l.collect_results(&mut t0).map_err(|e| err_class(&e))?;
+                }
+            }
+            let mut tok = StatefulTokenizer::new(dic, Mode::C);
+            tok.set_subset(InfoSubset::from_bits_retain(sub));
+            tok.reset().push_str(text);
+            tok.do_tokenize().map_err(|e| err_class(&e))?;
+            let mut src = MorphemeList::empty(dic);
+            src.collect_results(&mut tok).map_err(|e| err_class(&e))?;
+            let mut res = vec![];
+            for i in 0..src.len() {
+                out.clear();
+                if via_copy || !src.split_into(Mode::B, i, &mut out).map_err(|e| err_class(&e))? {
+                    out.clear();
+                    src.copy_slice(i, i + 1, &mut out);
+                }
+                for j in 0..out.len() {
+                    out2.clear();
+                    if !out.split_into(Mode::A, j, &mut out2).map_err(|e| err_class(&e))? {
+                        out.copy_slice(j, j + 1, &mut out2);
+                    }
+                    for m in out2.iter() {
+                        let wi = m.get_word_info();
+                        let api = vec![
+                            m.surface().to_string(),
+                            wi.head_word_length().to_string(),
+                            m.part_of_speech_id().to_string(),
+                            m.normalized_form().to_string(),
+                            format!("{}|{}", wi.dictionary_form_word_id(), m.dictionary_form()),
+                            m.reading_form().to_string(),
+                            join(wi.a_unit_split().iter().map(|w| w.as_raw()), "."),
+                            join(wi.b_unit_split().iter().map(|w| w.as_raw()), "."),
+                            join(wi.word_structure().iter().map(|w| w.as_raw()), "."),
+                            join(m.synonym_group_ids().iter(), "."),
+                        ];
+                        res.push((m.begin(), m.end(), api));
+                    }
+                }
+            }
+            Ok(res)
+        })
+    };
+    let full = observe(ALL, None);
+    let fresh = observe(req, None);
+    let reused = observe(req, Some(small));
+    run.bump(&format!("reuse-split:{}", if via_copy { "copy_slice-then-split" } else { "split-B-then-split-A" }));
+    let ctx = format!("two-level split ({}) of a mode-C analysis with set_subset({:#b}); text={:?}", if via_copy { "copy_slice, then split_into(A)" } else { "split_into(B), then split_into(A)" }, req, text);
+    let line = format!("C11 reuse-split idx={} req={} small={} copy={} text={}", idx, req, small, via_copy as u8, hex(text.as_bytes()));
+    let effective = InfoSubset::from_bits_retain(req).normalize().bits();
+    let cmp = |name: &str, key: &str, got: &Result<Result<Vec<(usize, usize, Vec<String>)>, String>, String>, run: &mut Run| {
+        match (got, &full) {
+            (Ok(Ok(g)), Ok(Ok(f))) => {
+                if g.len() != f.len() || g.iter().zip(f.iter()).any(|(a, b)| (a.0, a.1) != (b.0, b.1)) {
+                    run.fail_with_line(idx, &line, &format!("{}:boundaries", key), &format!("{} through {}: unit ranges {:?} differ from the full-field run {:?}", ctx, name,
+                        g.iter().map(|x| (x.0, x.1)).collect::<Vec<_>>(), f.iter().map(|x| (x.0, x.1)).collect::<Vec<_>>()));
+                    return;
+                }
+                for (k, (a, b)) in g.iter().zip(f.iter()).enumerate() {
+                    for fld in 0..10usize {
+                        if effective & (1 << fld) != 0 && req & (1 << fld) != 0 && a.2[fld] != b.2[fld] {
+                            run.fail_with_line(idx, &line, &format!("{}:field:{}", key, FIELD_NAMES[fld]), &format!("{} through {}: unit {} ({}..{}) reports {} = {:?}, the full-field run {:?}", ctx, name, k, a.0, a.1, FIELD_NAMES[fld], a.2[fld], b.2[fld]));
+                            return;
+                        }
+                    }
+                }
+                run.bump(&format!("reuse-split:{}:units={}", name, if g.len() > 3 { "4+".to_string() } else { g.len().to_string() }));
+            }
+            (a, b) => {
+                let cls = |r: &Result<Result<Vec<(usize, usize, Vec<String>)>, String>, String>| match r { Ok(Ok(_)) => "ok".to_string(), Ok(Err(e)) => format!("err:{}", e), Err(_) => "panic".to_string() };
+                if cls(a) != cls(b) {
+                    run.fail_with_line(idx, &line, &format!("{}:outcome", key), &format!("{} through {}: ends with {}, the full-field run with {}", ctx, name, cls(a), cls(b)));
+                }
+            }
+        }
+    };
+    cmp("new lists", "reuse-split:new", &fresh, run);
+    cmp(&format!("lists that held an analysis with subset {:#b}", small), "reuse-split:reused", &reused, run);
 }
 
 /// oracle-only sweep: every subset x every mode through set_subset + tokenise on one text
